@@ -195,6 +195,15 @@ Theorem stab_eq_plain_p0 Y1 Y2 : snd (mul_scalar_stab K ilog2 thr Y1 Y2) = 0%Z -
   fst (mul_scalar_stab K ilog2 thr Y1 Y2) = mul_scalar K Y1 Y2.
 Proof. intros H. rewrite <- mul_scalar_stab_exact, H, Hpow_0. ring. Qed.
 
+End StabRing.
+
+Section StabLin.
+Context {T : Type} (K : ops T).
+Notation "0" := (o0 K). Notation "1" := (o1 K).
+Infix "+" := (oadd K). Infix "*" := (omul K). Infix "-" := (osub K).
+Hypothesis Rth : rng K.
+Add Ring RrStabLin : Rth.
+
 (* ---------- multilinearity of the chain in one core ---------- *)
 Lemma core_scale_dims c G : cr1 (core_scale K c G) = cr1 G /\ cn (core_scale K c G) = cn G /\
   cr2 (core_scale K c G) = cr2 G.
@@ -244,7 +253,8 @@ Proof.
   induction A as [|H A IH]; intros [|i idx] r rl; cbn [app wfo]; try tauto.
   rewrite (IH idx). tauto.
 Qed.
-End StabRing.
+End StabLin.
+
 
 (* ---------- packaged statements (hypotheses bundled as [stab_laws]) ---------- *)
 (* the laws a carrier must satisfy: commutative ring + exact powers of two
